@@ -642,3 +642,96 @@ Definition kstep (cas : bool) (s : kstate) (ev : kev) : kstate :=
 Definition krun (cas : bool) (evs : list kev) : kstate := fold_left (kstep cas) evs kinit.
 
 Definition k_quiescent (s : kstate) : bool := forallb q_quiet (k_qs s).
+
+(* ------------------------------------------------------------------------------------------------ *)
+(* Part S: one singleflight flight of HandleWithResponseWriter_ with clients of mixed kinds           *)
+(* ------------------------------------------------------------------------------------------------ *)
+(* A client is a transparent-UDP client (no response writer, req.lConn set: replies are datagrams sent to
+   its socket) or a listener / DNS-over-TCP client (response writer, lConn nil).  The leader's outer cache
+   lookup missed; the shared resolution (resolveForSingleflight: the leader's message and req, an internal
+   msgCapturer as writer) looks the cache up AGAIN - an earlier flight for the same key may have published
+   the answer in between - and otherwise forwards upstream.  writeCachedResponse routes a cached answer by
+   (writer present, req present, lConn present); its two conditions [wc], [nc] are parameters here and are
+   instantiated with the terms generated from the source (gen/C09_Route.v). *)
+Record fclient := { fc_q : client_query; fc_w : bool; fc_lc : bool }.
+
+Inductive pubpoint :=
+| PNever                        (* nobody publishes: the shared resolution forwards upstream *)
+| PWindow (e : centry)          (* published between the leader's outer miss and the shared lookup *)
+| PBefore (e : centry).         (* published before anybody looked: plain cache hits, no flight *)
+
+Inductive sfres := SFErr | SFOk (m : message).
+
+(* 0 = responseWriter.WriteMsg, 1 = datagram to the client's socket, 2 = error *)
+Definition route (wc nc : bool -> bool -> bool -> bool) (w lc : bool) : N :=
+  if wc w true lc then 0 else if nc w true lc then 2 else 1.
+
+(* what the callers (udp.go fast path / dns_listener.go / tcp.go) send when the handler returns an error *)
+Definition servfail (c : client_query) : message :=
+  {| m_id := cq_id c; m_q := Some (cq_q c); m_rcode := 2; m_tc := false; m_ans := [] |}.
+
+(* the shared resolution: result for singleflight, datagrams it sent straight to the leader's client,
+   cache entry for the key afterwards *)
+Definition shared (wc nc : bool -> bool -> bool -> bool) (p : bool) (L : fclient) (pb : pubpoint) (up : fres)
+  : sfres * list message * option centry :=
+  match pb with
+  | PWindow e | PBefore e =>
+      match route wc nc true (fc_lc L) with
+      | 0%N => (SFOk (hit_reply p (fc_q L) e), [], Some e)          (* written to the capturer *)
+      | 1%N => (SFErr, [hit_reply p (fc_q L) e], Some e)            (* capturer stays empty *)
+      | _ => (SFErr, [], Some e)
+      end
+  | PNever =>
+      match up with
+      | FMsg m => if question_checked (cq_q (fc_q L)) m
+                  then (SFOk (with_id m (cq_id (fc_q L))), [], cacheable m)
+                  else (SFErr, [], None)
+      | _ => (SFErr, [], None)
+      end
+  end.
+
+(* a cached answer handed to client c by writeCachedResponse (or the caller's SERVFAIL on error) *)
+Definition cached_reply (wc nc : bool -> bool -> bool -> bool) (p : bool) (c : fclient) (e : centry) : list message :=
+  match route wc nc (fc_w c) (fc_lc c) with
+  | 2%N => [servfail (fc_q c)]
+  | _ => [hit_reply p (fc_q c) e]
+  end.
+
+(* per-participant tail after singleflight returned *)
+Definition post (wc nc : bool -> bool -> bool -> bool) (p : bool) (c : fclient) (r : sfres) (cache : option centry)
+  : list message :=
+  match r with
+  | SFErr => [servfail (fc_q c)]
+  | SFOk m =>
+      match cache with
+      | Some e => cached_reply wc nc p c e
+      | None => if fc_w c || fc_lc c then [with_id m (cq_id (fc_q c))] else [servfail (fc_q c)]
+      end
+  end.
+
+(* reply lists: the leader's first, then the waiters' *)
+Definition flight (wc nc : bool -> bool -> bool -> bool) (p : bool) (L : fclient) (Ws : list fclient)
+           (pb : pubpoint) (up : fres) : list (list message) :=
+  match pb with
+  | PBefore e => map (fun c => cached_reply wc nc p c e) (L :: Ws)
+  | _ =>
+      let '(r, direct, cache) := shared wc nc p L pb up in
+      (direct ++ post wc nc p L r cache) :: map (fun c => post wc nc p c r cache) Ws
+  end.
+
+(* the rcode every participant must see: the available answer's, or SERVFAIL when there is none *)
+Definition flight_rcode (L : fclient) (pb : pubpoint) (up : fres) : N :=
+  match pb with
+  | PWindow _ | PBefore _ => 0
+  | PNever => match up with
+              | FMsg m => if question_checked (cq_q (fc_q L)) m then m_rcode m else 2
+              | _ => 2
+              end
+  end.
+
+(* exactly one reply, own ID, own question, only answers to it, carrying the shared result *)
+Definition flight_client_ok (rc : N) (c : fclient) (rs : list message) : bool :=
+  match rs with
+  | [m] => reply_ok (fc_q c) m && (m_rcode m =? rc)
+  | _ => false
+  end.
